@@ -103,7 +103,7 @@ def main(run):
                 "well-formed IR; distinct = (mnemonic, operand shape, operand/address size)")
     run.assumptions = ["vlib/irtype.py encodes the well-formedness rules of the property statement",
                        "a wide source of a 1-bit flag is refuted only by evaluation on sampled valuations; sources containing an uninterpreted operator are undecided (counted)"]
-    cs = set(x86space.cases(run.tier, run.seed)) | set(x86space.modrm_grid()) | set(x86space.x87_cases()) | set(x86space.control_flow_cases())
+    cs = set(x86space.cases(run.tier, run.seed)) | set(x86space.modrm_grid()) | set(x86space.x87_cases()) | set(x86space.control_flow_cases()) | set(x86space.boundary_value_cases())
     cs = sorted(cs)
     runner.pmap(run, worker, runner.chunks(cs, 64))
     run.extra["windows"] = len(cs)
